@@ -276,8 +276,9 @@ var writers = []writer{
 }
 
 type checker struct {
-	c    *mon.Ctx
-	salt int
+	c     *mon.Ctx
+	salt  int
+	nread int
 }
 
 func optsFor(mask int) *ojg.Options {
@@ -325,6 +326,33 @@ func (ck *checker) roundTrip(tree any, wi, mask int, cs map[string]any, class st
 	}
 	if d := equal(tree, got, "$"); d != "" {
 		c.Violation(w.name, "value-changed", class, full(), clip(treegen.Show(tree)), d+" | text: "+clip(string(text)))
+		return
+	}
+	// the same text read back the way a file or a connection is read: through the package-level functions
+	// (pooled parser) from a reader that delivers a few bytes at a time, now and then right after a call
+	// in callback mode on the same pool
+	ck.nread++
+	if ck.nread%4 != 0 {
+		return
+	}
+	c.Cover("readback:sen.ParseReader")
+	pl := []jsongen.Plan{jsongen.Fixed(1), jsongen.Fixed(3), jsongen.Fixed(7), jsongen.Whole}[(ck.nread/4)%4]
+	if p := mon.Guard(func() {
+		if ck.nread%12 == 0 {
+			_, _ = sen.Parse(text, func(any) bool { return false })
+		}
+		got, perr = sen.ParseReader(pl.Reader(text))
+	}); p != nil {
+		c.Violation(w.name, "parse-panic", class+"/reader", full(), "sen.ParseReader reads the text back", p.String())
+		return
+	}
+	c.Eval(1)
+	if perr != nil {
+		c.Violation(w.name, "not-parseable", class+"/reader", full(), "sen.ParseReader ("+pl.Name+") accepts the written text", perr.Error()+" | text: "+clip(string(text)))
+		return
+	}
+	if d := equal(tree, got, "$"); d != "" {
+		c.Violation(w.name, "value-changed", class+"/reader", full(), clip(treegen.Show(tree)), "through sen.ParseReader ("+pl.Name+"): "+d+" | text: "+clip(string(text)))
 	}
 }
 
